@@ -3,8 +3,9 @@ from props.l1props import *
 
 
 def run(tier, seed, replay=None):
-    ck, _ = run_prop("C02", tier, seed, replay, 500, 6000,
+    ck, _ = run_prop("C02", tier, seed, replay, 500, 6000, soak=["130-heartbeats", "1600-end-marker-updates/end_marker=False"],
                      rule="random histories over 2 associations x up to 4 sessions (setup, establishment incl. without association, the "
                           "modification kinds of tools/l1.py, deletion, unknown-SEID requests, heartbeat, report response, release, teardown, restart), "
-                          "sequence numbers incl. 0 / 2^24-1, CP SEIDs incl. 0 / 2^64-1; distinct = distinct event byte sequences")
+                          "sequence numbers incl. 0 / 2^24-1, CP SEIDs incl. 0 / 2^64-1; distinct = distinct event byte sequences; plus soak histories (130 heartbeats before and after association with and "
+                          "without the heartbeat monitor, 1600 end-marker updates with end markers disabled): every request answered exactly once")
     return ck if isinstance(ck, int) else ck.finish()
